@@ -50,12 +50,17 @@ def sortStrings (l : List String) : List String := (l.toArray.qsort (· < ·)).t
 def renderEnv (m : List (List Char × List Char)) : List (List Char) :=
   (sortStrings (m.map fun (k, v) => String.ofList (k ++ ['='] ++ v))).map String.toList
 
+/-- merged environment list: the transformer runs only when the base list is non-nil; a nil base
+    takes the override's list as it is -/
+def mergeEnvList (base over : Proc) : List (List Char) :=
+  if base.envNil then over.env else renderEnv (mergeEnvMap base.env over.env)
+
 /-- `mergeProcess base override` -/
 def mergeProc (fields : List String) (base over : Proc) : Proc :=
   { scalars := fields.map fun f => (f, if scalarOf over f ≠ "" then scalarOf over f else scalarOf base f),
-    -- the transformer runs only when the base list is non-nil; a nil base takes the override's list as is
-    envNil := base.envNil && over.envNil,
-    env := if base.envNil then over.env else renderEnv (mergeEnvMap base.env over.env),
+    -- an empty result is a nil list again (`var s Environment` / `AppendSlice(nil, [])`)
+    envNil := (mergeEnvList base over).isEmpty,
+    env := mergeEnvList base over,
     -- depends_on: merged by key, an entry of the later file replaces the earlier one wholesale
     deps := (base.deps.filter fun d => !(over.deps.any (·.1 = d.1))) ++ over.deps,
     -- slices are appended
@@ -71,5 +76,24 @@ def mergeProject (fields : List String) (base over : Project) : Project :=
     | some o => (n, mergeProc fields b o)
     | none => (n, b)) ++
   (over.filter fun (n, _) => (lookupProc base n).isNone)
+
+/-- the single-file loader resolves the working directories of an extended (base) project against
+    the base file's directory (`copyWorkingDirToProcesses`) -/
+def resolveWd (dir wd : String) : String :=
+  if wd = "" then dir else if wd.startsWith "/" then wd else dir ++ "/" ++ wd
+
+def setScalar (p : Proc) (f v : String) : Proc :=
+  { p with scalars := (p.scalars.filter (·.1 ≠ f)) ++ [(f, v)] }
+
+def resolveProc (dir : String) (p : Proc) : Proc := setScalar p "working_dir" (resolveWd dir (scalarOf p "working_dir"))
+
+/-- a chain of files is folded from the left -/
+def mergeChain (fields : List String) : List Project → Project
+  | [] => []
+  | b :: rest => rest.foldl (mergeProject fields) b
+
+/-- `[child extends base]`: the base is inserted before the child, its working directories resolved -/
+def loadExtends (fields : List String) (dir : String) (base child : Project) : Project :=
+  mergeChain fields [base.map fun (n, p) => (n, resolveProc dir p), child]
 
 end PC.Merge
